@@ -1,4 +1,4 @@
-import Rare.Proofs.C14Heat
+import Rare.Proofs.C14Unit
 import Rare.Gen.C14
 /-!
 # C14 – Renderers never crash and draw quantities proportionally within bounds
@@ -9,11 +9,14 @@ negative values), a20c03a (aliased value slices), b1ca348 (heatmap header loop),
 no columns), 6408ebf (inverted remapped range), c54b92c (sparkline header measured in bytes),
 73473fc (reduce table: group key with more parts than group columns).
 
-Numbers: `float64` is instantiated with ℚ (`ratArith L2 L10`): exact conversion `int64 → float64`
-(true for |v| < 2^53), exact `+ - * /`, abstract logarithms that are only assumed monotone and
-non-negative above 1 (`LogLike`; `math.Log2/Log10` are a trusted library, and the code maps every
-argument `≤ 1` to 0 itself).  IEEE rounding is covered by the correspondence run only (the driver
-instantiates the same model with `Float`) – level *partial* for that gap, as planned in DESIGN.md.
+Numbers: the model is polymorphic in the `float64` operations (`Arith α`).  Two instances carry theorems:
+ℚ (`ratArith L2 L10`: exact conversion and `+ - * /`, abstract logarithms only assumed monotone and
+non-negative above 1, `LogLike`) and IEEE-754 binary64 (`f64Arith`, the software model `Rare.F64` of
+`Base/F64.lean`: every operation of `scale.go` with its rounding; `math.Log2/Log10` parameters assumed
+`LogLikeF64`).  The scaler, palette and bar theorems are proved for BOTH (`…_f64` next to the ℚ ones); the
+renderer invariants of round 2 (histogram, bar graph) are proved once for every instance satisfying
+`UnitLaws`, which both do (`float_laws_rat`, `float_laws_f64`).  The driver computes with the binary64
+instance, so the correspondence compares the theorems' own definitions with Go bit for bit.
 
 Tables and constants are the regenerated ones (`Rare.Gen.C14`): `tables_match_source` pins the
 hand copies used by the model to them, `bucket_in_range` is stated over the generated call-site list,
@@ -98,6 +101,144 @@ theorem heat_spark_no_panic {L2 L10 : Rat → Rat} (h2 : LogLike L2) (h10 : LogL
     (∃ b, sparkWrite (ratArith L2 L10) env (scale (ratArith L2 L10) k val min max) = .ok b) := by
   obtain ⟨a, b⟩ := scale_bounds h2 h10 k val min max
   exact ⟨heatWrite_ok env a b, sparkWrite_ok env a b⟩
+
+/-! ## scaler laws on IEEE-754 binary64 (the computation `scale.go` performs, rounding included)
+
+`f64Arith L2 L10 P2 P10` (`Rare/Model/C14F64.lean`) instantiates the `float64` operations of the model with the
+software binary64 of `Rare/Base/F64.lean`: `float64(int64)`, `-`, `/`, `*` round to nearest even,
+`math.Floor/Ceil`, `<=` with NaN unordered, `int(f)` as on amd64.  `scale (f64Arith …) k v mn mx` is the exact
+sequence of operations of `Scaler.Scale`; the driver evaluates these definitions against Go bit for bit.
+`I64 i` says `i` is an int64; `UnitF64 u` says `u` is a FINITE float whose value lies in `[0,1]`; for finite
+floats the IEEE order is the order of the values (`Props/C11.lean` `f64_order_is_value_order`).
+`math.Log2/Log10` are parameters assumed `LogLikeF64` (finite and monotone on `[1,∞)`, `log 1 = 0`). -/
+
+/-- `scale_unit_interval_f64`: for EVERY int64 triple and every scaler the float `Scale` returns is finite
+(never NaN, never ±Inf), `0.0 <= it <= 1.0` in the IEEE order, and its exact value lies in `[0,1]` -/
+theorem scale_unit_interval_f64 {L2 L10 P2 P10 : F64 → F64} (h2 : LogLikeF64 L2) (h10 : LogLikeF64 L10) (k : Scaler) (val min max : Int)
+    (hv : I64 val) (hmn : I64 min) (hmx : I64 max) :
+    let r := scale (f64Arith L2 L10 P2 P10) k val min max
+    r.isFinite = true ∧ r.isNaN = false ∧ F64.le (F64.ofInt 0) r = true ∧ F64.le r (F64.ofInt 1) = true ∧
+      0 ≤ r.toRat ∧ r.toRat ≤ 1 := by
+  intro r
+  have h := scale_f64_unit (P2 := P2) (P10 := P10) h2 h10 k hv hmn hmx
+  exact ⟨h.1, h.order.1, h.order.2.1, h.order.2.2, h.2.1, h.2.2⟩
+
+/-- the linear scaler (the default) needs no assumption at all: it never calls a logarithm -/
+theorem scale_linear_unit_interval_f64 (L2 L10 P2 P10 : F64 → F64) (val min max : Int) (hv : I64 val) (hmn : I64 min) (hmx : I64 max) :
+    let r := scale (f64Arith L2 L10 P2 P10) .linear val min max
+    r.isFinite = true ∧ r.isNaN = false ∧ F64.le (F64.ofInt 0) r = true ∧ F64.le r (F64.ofInt 1) = true ∧
+      0 ≤ r.toRat ∧ r.toRat ≤ 1 := by
+  intro r
+  have h := scale_linear_f64_unit (L2 := L2) (L10 := L10) (P2 := P2) (P10 := P10) hv hmn hmx
+  exact ⟨h.1, h.order.1, h.order.2.1, h.order.2.2, h.2.1, h.2.2⟩
+
+/-- `scale_monotone_f64`: a larger value never gives a smaller float (IEEE order and exact values), every int64
+range, every scaler – also across the guards (below the range: `0.0`, above: `1.0`) -/
+theorem scale_monotone_f64 {L2 L10 P2 P10 : F64 → F64} (h2 : LogLikeF64 L2) (h10 : LogLikeF64 L10) (k : Scaler) (val val' min max : Int)
+    (hv : I64 val) (hv' : I64 val') (hmn : I64 min) (hmx : I64 max) (h : val ≤ val') :
+    F64.le (scale (f64Arith L2 L10 P2 P10) k val min max) (scale (f64Arith L2 L10 P2 P10) k val' min max) = true ∧
+    (scale (f64Arith L2 L10 P2 P10) k val min max).toRat ≤ (scale (f64Arith L2 L10 P2 P10) k val' min max).toRat := by
+  have m := scale_f64_mono (P2 := P2) (P10 := P10) h2 h10 k hv hv' hmn hmx h
+  exact ⟨(F64.le_iff_toRat_le (scale_f64_unit h2 h10 k hv hmn hmx).1 (scale_f64_unit h2 h10 k hv' hmn hmx).1).mpr m, m⟩
+
+theorem scale_linear_monotone_f64 (L2 L10 P2 P10 : F64 → F64) (val val' min max : Int)
+    (hv : I64 val) (hv' : I64 val') (hmn : I64 min) (hmx : I64 max) (h : val ≤ val') :
+    F64.le (scale (f64Arith L2 L10 P2 P10) .linear val min max) (scale (f64Arith L2 L10 P2 P10) .linear val' min max) = true ∧
+    (scale (f64Arith L2 L10 P2 P10) .linear val min max).toRat ≤ (scale (f64Arith L2 L10 P2 P10) .linear val' min max).toRat := by
+  have m := scale_linear_f64_mono (L2 := L2) (L10 := L10) (P2 := P2) (P10 := P10) hv hv' hmn hmx h
+  exact ⟨(F64.le_iff_toRat_le (scale_linear_f64_unit hv hmn hmx).1 (scale_linear_f64_unit hv' hmn hmx).1).mpr m, m⟩
+
+/-- what happens outside the range, bit for bit: an inverted range and a value below the range give `+0.0`, a
+value above the range gives `1.0`; inside, the result is the guarded quotient of the two rounded differences
+of the mapped value and the remapped (`Floor`/`Ceil`) ends -/
+theorem scale_guards_f64 (L2 L10 P2 P10 : F64 → F64) (k : Scaler) (val min max : Int) :
+    (max < min → scale (f64Arith L2 L10 P2 P10) k val min max = F64.zero false) ∧
+    (¬ max < min → val < min → scale (f64Arith L2 L10 P2 P10) k val min max = F64.zero false) ∧
+    (¬ max < min → val > max → scale (f64Arith L2 L10 P2 P10) k val min max = F64.one) ∧
+    (min ≤ val → val ≤ max → scale (f64Arith L2 L10 P2 P10) k val min max =
+      scaleCore (mapF L2 L10 P2 P10 k val) (F64.floor (mapF L2 L10 P2 P10 k min)) (F64.ceil (mapF L2 L10 P2 P10 k (upperEnd min max)))) := by
+  refine ⟨fun g1 => ?_, fun g1 g2 => ?_, fun g1 g3 => ?_, fun a b => scale_f64_in_range k a b⟩
+  · simp [scale, g1, f64Arith, ofInt_zero]
+  · simp [scale, g1, g2, f64Arith, ofInt_zero]
+  · have g2 : ¬ val < min := by omega
+    simp [scale, g1, g2, g3, f64Arith, ofInt_one]
+
+/-- why the degenerate-range guard is needed (cf. the seeded change C14-degenerate-range-nan): for
+`min = max = 2^53` the widened end `float64(2^53 + 1)` rounds back to `2^53`, the remapped range is empty and
+the unguarded quotient is `0/0 = NaN`; the guard returns `+0.0` -/
+theorem scale_degenerate_guard_needed_f64 :
+    let x := F64.ofInt 9007199254740992
+    let a := F64.floor x
+    let b := F64.ceil (F64.ofInt (upperEnd 9007199254740992 9007199254740992))
+    (F64.div (F64.sub x a) (F64.sub b a)).isNaN = true ∧ scaleCore x a b = F64.zero false ∧
+    scale (f64Arith id id id id) .linear 9007199254740992 9007199254740992 9007199254740992 = F64.zero false := by
+  decide +kernel
+
+/-- `bucket_in_range_f64`: every palette lookup of `HeatWrite` / `SparkWrite` (call sites and tables as found in
+/repo) with a unit FLOAT: `int(u * float64(N-1))` is inside the table, and exactly `N-1` for `1.0` -/
+theorem bucket_in_range_f64 {L2 L10 P2 P10 : F64 → F64} (site : Nat × Nat) (hs : site ∈ Gen.C14.heatBucketSites ++ Gen.C14.sparkBucketSites)
+    (u : F64) (hu : UnitF64 u) :
+    0 ≤ bucket (f64Arith L2 L10 P2 P10) site.1 u ∧ bucket (f64Arith L2 L10 P2 P10) site.1 u < site.2 ∧
+    (u.toRat = 1 → bucket (f64Arith L2 L10 P2 P10) site.1 u = (site.2 : Int) - 1) := by
+  have hsite : site.1 = site.2 ∧ 1 ≤ (site.1 : Int) ∧ (site.1 : Int) ≤ 9007199254740992 := by
+    revert site; decide
+  have := trunc_mul_f64 hu (n := (site.1 : Int) - 1) (by omega) (by omega)
+  have e : bucket (f64Arith L2 L10 P2 P10) site.1 u = F64.toInt64 (F64.mul u (F64.ofInt ((site.1 : Int) - 1))) := rfl
+  have h2 : (site.2 : Int) = site.1 := by rw [hsite.1]
+  rw [e]
+  exact ⟨this.1, by omega, fun h => by rw [this.2.2 h]; omega⟩
+
+/-- `LengthVal(n, u)` on floats (`0 ≤ n ≤ 2^53`): in `[0, n]`, `n` for exactly `1.0`, monotone in `u` -/
+theorem lengthval_bounds_f64 {L2 L10 P2 P10 : F64 → F64} (n : Int) (h0 : 0 ≤ n) (h1 : n ≤ 9007199254740992) (u v : F64) (hu : UnitF64 u) (hv : UnitF64 v) :
+    0 ≤ lengthVal (f64Arith L2 L10 P2 P10) n u ∧ lengthVal (f64Arith L2 L10 P2 P10) n u ≤ n ∧
+    (u.toRat = 1 → lengthVal (f64Arith L2 L10 P2 P10) n u = n) ∧
+    (u.toRat ≤ v.toRat → lengthVal (f64Arith L2 L10 P2 P10) n u ≤ lengthVal (f64Arith L2 L10 P2 P10) n v) :=
+  ⟨(trunc_mul_f64 hu h0 h1).1, (trunc_mul_f64 hu h0 h1).2.1, (trunc_mul_f64 hu h0 h1).2.2, fun huv => trunc_mul_f64_mono hu hv huv h0 h1⟩
+
+/-- the two instances of the `float64` operations satisfy the laws every renderer theorem below asks for
+(`UnitLaws`: `Scale` of integers in the domain is a unit value and monotone, `int(u * float64(n))` of a unit value
+lies in `[0, n]` and is monotone for `n ≤ 2^53`): exact rationals with an abstract logarithm … -/
+theorem float_laws_rat {L2 L10 : Rat → Rat} (h2 : LogLike L2) (h10 : LogLike L10) :
+    UnitLaws (ratArith L2 L10) (fun _ => True) (fun u => 0 ≤ u ∧ u ≤ 1) (fun u v => u ≤ v) :=
+  unitLaws_rat h2 h10
+
+/-- … and IEEE-754 binary64 on int64 -/
+theorem float_laws_f64 {L2 L10 P2 P10 : F64 → F64} (h2 : LogLikeF64 L2) (h10 : LogLikeF64 L10) :
+    UnitLaws (f64Arith L2 L10 P2 P10) I64 UnitF64 (fun u v => u.toRat ≤ v.toRat) :=
+  unitLaws_f64 h2 h10
+
+/-- `barlen_bounds`, for every instance satisfying the laws (in particular binary64): `BarWrite(w, Scale(val, min, max), maxLen)`
+never panics, writes at most `maxLen` glyphs, and a larger value never gives a shorter bar (`0 ≤ maxLen ≤ 10^15`) -/
+theorem barlen_bounds {α : Type} {A : Arith α} {Dom : Int → Prop} {Unit : α → Prop} {le : α → α → Prop} (U : UnitLaws A Dom Unit le)
+    (env : Env) (k : Scaler) (val val' min max maxLen : Int) (hv : Dom val) (hv' : Dom val') (hmn : Dom min) (hmx : Dom max)
+    (hvv : val ≤ val') (hm : 0 ≤ maxLen) (hs : maxLen ≤ 1000000000000000) :
+    ∃ g g', barWriteR A env (scale A k val min max) maxLen = .ok g ∧ barWriteR A env (scale A k val' min max) maxLen = .ok g' ∧
+      (g.length : Int) ≤ maxLen ∧ (g'.length : Int) ≤ maxLen ∧ g.length ≤ g'.length := by
+  have u := U.scale_unit k hv hmn hmx
+  have u' := U.scale_unit k hv' hmn hmx
+  obtain ⟨g, hg, hl⟩ := U.barWriteR_ok env u hm hs
+  obtain ⟨g', hg', hl'⟩ := U.barWriteR_ok env u' hm hs
+  have m := U.glyphCount_mono env u u' (U.scale_mono k hv hv' hmn hmx hvv) hm hs
+  have b := (U.glyphCount_le env u hm hs).2
+  have b' := (U.glyphCount_le env u' hm hs).2
+  exact ⟨g, g', hg, hg', by omega, by omega, by omega⟩
+
+/-- `barlen_bounds_f64`: the same on the real float computation, every int64 triple -/
+theorem barlen_bounds_f64 {L2 L10 P2 P10 : F64 → F64} (h2 : LogLikeF64 L2) (h10 : LogLikeF64 L10) (env : Env) (k : Scaler)
+    (val val' min max maxLen : Int) (hv : I64 val) (hv' : I64 val') (hmn : I64 min) (hmx : I64 max)
+    (hvv : val ≤ val') (hm : 0 ≤ maxLen) (hs : maxLen ≤ 1000000000000000) :
+    ∃ g g', barWriteR (f64Arith L2 L10 P2 P10) env (scale (f64Arith L2 L10 P2 P10) k val min max) maxLen = .ok g ∧
+      barWriteR (f64Arith L2 L10 P2 P10) env (scale (f64Arith L2 L10 P2 P10) k val' min max) maxLen = .ok g' ∧
+      (g.length : Int) ≤ maxLen ∧ (g'.length : Int) ≤ maxLen ∧ g.length ≤ g'.length :=
+  barlen_bounds (unitLaws_f64 h2 h10) env k val val' min max maxLen hv hv' hmn hmx hvv hm hs
+
+/-- heat and spark cells on the real float computation: never a panic, always ONE cell of the palette -/
+theorem heat_spark_no_panic_f64 {L2 L10 P2 P10 : F64 → F64} (h2 : LogLikeF64 L2) (h10 : LogLikeF64 L10) (env : Env) (k : Scaler)
+    (val min max : Int) (hv : I64 val) (hmn : I64 min) (hmx : I64 max) :
+    (∃ b, heatWrite (f64Arith L2 L10 P2 P10) env (scale (f64Arith L2 L10 P2 P10) k val min max) = .ok b ∧ IsHeatCell env b) ∧
+    (∃ b, sparkWrite (f64Arith L2 L10 P2 P10) env (scale (f64Arith L2 L10 P2 P10) k val min max) = .ok b ∧ IsSparkGlyph b) :=
+  ⟨(unitLaws_f64 h2 h10).heatWrite_cell env (scale_f64_unit h2 h10 k hv hmn hmx),
+   (unitLaws_f64 h2 h10).sparkWrite_glyph env (scale_f64_unit h2 h10 k hv hmn hmx)⟩
 
 /-! ## bars -/
 
@@ -427,6 +568,22 @@ example : Terminated ⟨true, true⟩ (27 :: ascii "[31mred") ∧ ¬ Terminated 
   constructor
   · intro _; decide +kernel
   · intro h; exact absurd (h rfl) (by decide +kernel)
+
+/-! non-vacuity of the binary64 theorems -/
+example : LogLikeF64 (fun x => F64.sub x F64.one) := logLikeF64_sub_one
+example : I64 9007199254740993 ∧ I64 (-9223372036854775808) ∧ ¬ I64 9223372036854775808 := by
+  unfold I64 minInt64 maxInt64; omega
+/-- 1/3 is rounded once by the division: `0x3FD5555555555555` -/
+example : scale (f64Arith id id id id) .linear 1 0 3 = ⟨0x3FD5555555555555, by decide⟩ := by decide +kernel
+/-- the whole int64 range: `float64(2^63-1)` rounds to `2^63`, the span to `2^64`; the result is still a unit float -/
+example : scale (f64Arith id id id id) .linear 4611686018427387905 (-9223372036854775808) 9223372036854775807 = ⟨0x3FE8000000000000, by decide⟩ := by
+  decide +kernel
+example : UnitF64 F64.one ∧ UnitF64 (F64.zero false) ∧ ¬ UnitF64 F64.nan := by
+  refine ⟨⟨by decide, by decide +kernel, by decide +kernel⟩, ⟨by decide, by decide +kernel, by decide +kernel⟩, fun h => absurd h.1 (by decide)⟩
+example : bucket (f64Arith id id id id) 16 F64.one = 15 ∧ bucket (f64Arith id id id id) 16 (F64.zero false) = 0 ∧
+    lengthVal (f64Arith id id id id) 450 F64.one = 450 := by decide +kernel
+/-- what the guard protects the palettes from: `int(NaN * 15)` is `MinInt64` on amd64 -/
+example : bucket (f64Arith id id id id) 16 F64.nan = -9223372036854775808 := by decide +kernel
 
 /-- the compiled form of `{0}/{2}`: the same value under another maximum gives another text -/
 example : exprFormat [Expr.Comp.match_ 0, Expr.Stage.lit (ascii "/"), Expr.Comp.match_ 2] 5 0 9 = ascii "5/9" ∧
